@@ -244,7 +244,15 @@ func (g *Gen) hexColor() string {
 		return "#" + string([]byte{h[0], h[0], h[1], h[1], h[2], h[2]})
 	case 6:
 		h := g.hexDigits(4)
-		return "#" + string([]byte{h[0], h[0], h[1], h[1], h[2], h[2], h[3], h[3]})
+		b := []byte{h[0], h[0], h[1], h[1], h[2], h[2], h[3], h[3]}
+		if g.chance(1, 2) { // all pairs doubled but one: must NOT collapse
+			k := g.r.Intn(4)
+			d := g.hexDigits(1)[0]
+			if d != b[2*k] {
+				b[2*k+g.r.Intn(2)] = d
+			}
+		}
+		return "#" + string(b)
 	case 7: // alpha ff / 00
 		return "#" + g.hexDigits(6) + g.pick("ff", "FF", "00", "fF")
 	case 8: // hex values that have a shorter name
